@@ -286,20 +286,29 @@ def R4_estimate(run):
             p = callee_path(t) or ""
             if p.endswith(("est_liquidity_for_token_a", "est_liquidity_for_token_b")) and pv.flow.state_in[bi] is not None:
                 args = [pv.operand(a, bi, len(fn.blocks[bi]["s"])) for a in t["a"]]
-                out.append((p[-1], arg_name(args[2])))
+
+                def bound(t):
+                    t = strip(t)
+                    if is_param(t, "current_sqrt_price"):
+                        return "current"
+                    if is_call(t, "sqrt_price_from_tick_index"):
+                        return {"tick_lower_index": "lower", "tick_upper_index": "upper"}.get(arg_name(t[2][0]), "?")
+                    return "?"
+                # the helpers order their two prices themselves: the pair matters, not its order
+                out.append((p[-1], arg_name(args[2]), tuple(sorted((bound(args[0]), bound(args[1]))))))
         return sorted(out), pv
     up_t = (a_up[0], a_up[1] == "Ge")
     up_f = (a_up[0], a_up[1] != "Ge")
     lo_t = (a_lo[0], a_lo[1] == "Le")
     lo_f = (a_lo[0], a_lo[1] != "Le")
     got, _ = calls_under([up_t])
-    run.check("R4", "above-range", got == [("b", "token_max_b")], "price >= upper must use only token B (found %s)" % got, loc=fn.loc(), detail="B only")
+    run.check("R4", "above-range", got == [("b", "token_max_b", ("lower", "upper"))], "price >= upper must use only token B over [lower, upper] (found %s)" % got, loc=fn.loc(), detail="B only, over [lower, upper]")
     got, _ = calls_under([up_f, lo_t])
-    run.check("R4", "below-range", got == [("a", "token_max_a")], "price <= lower must use only token A (found %s)" % got, loc=fn.loc(), detail="A only")
+    run.check("R4", "below-range", got == [("a", "token_max_a", ("lower", "upper"))], "price <= lower must use only token A over [lower, upper] (found %s)" % got, loc=fn.loc(), detail="A only, over [lower, upper]")
     got, pv = calls_under([up_f, lo_f])
-    ok = got == [("a", "token_max_a"), ("b", "token_max_b")]
+    ok = got == [("a", "token_max_a", ("current", "upper")), ("b", "token_max_b", ("current", "lower"))]
     mn = [t for bi, t in fn.calls() if (callee_path(t) or "").endswith("::min") and pv.flow.state_in[bi] is not None]
-    run.check("R4", "in-range", ok and len(mn) == 1, "in range the estimate must be min(liq_a, liq_b) (calls %s, %d min)" % (got, len(mn)), loc=fn.loc(), detail="min(liq_a, liq_b)")
+    run.check("R4", "in-range", ok and len(mn) == 1, "in range the estimate must be min(liq_a over [current, upper], liq_b over [lower, current]) (calls %s, %d min)" % (got, len(mn)), loc=fn.loc(), detail="min(liq_a[current, upper], liq_b[lower, current])")
     # floors
     fa = facts.need_fn(TM + "est_liquidity_for_token_a")
     ev = preach.call_events(facts, fa, {}, lambda p: p.endswith("U256Muldiv::div"), depth=0)
